@@ -655,6 +655,53 @@ fn unlimited<R: ModeTag, const B: Word>(c: &Case, _ctx: &Ctx) -> Out {
     out
 }
 
+/// powi with the exponents 0 and 1 and an argument that has MORE digits than the context
+/// precision (the Context methods take any Repr): x^1 is x rounded to p digits by the six-clause
+/// contract, x^0 is exactly 1
+#[derive(Debug, Clone, Hash, Serialize, Deserialize)]
+struct LongCase {
+    p: u32,
+    x: Fl,
+    n: u8,
+}
+
+fn long_case(base: u64) -> impl Strategy<Value = LongCase> {
+    (1u32..40, 1u64..30, 0u8..9, any::<u64>(), any::<bool>(), -60i64..60, 0u8..4).prop_map(move |(p, extra, pat, seed, neg, e, n)| {
+        let k = p as u64 + extra;
+        let m = sig_pattern(base, k, pat, seed);
+        let v = if neg { -BigInt::from(m) } else { BigInt::from(m) };
+        LongCase { p, x: fl_from(&v, e), n: n % 2 }
+    })
+}
+
+fn long_powi<R: ModeTag, const B: Word>(c: &LongCase, _ctx: &Ctx) -> Out {
+    let mut out = Out::new();
+    let base = B as u64;
+    let p = c.p as u64;
+    out.nontrivial(true);
+    out.label(if c.n == 0 { "long operand: x^0" } else { "long operand: x^1" });
+    let xs = c.x.sci(base);
+    if xs.is_zero() {
+        return out;
+    }
+    let cx = Context::<R>::new(c.p as usize);
+    let rx = c.x.repr::<B>();
+    let truth = Truth::Val(if c.n == 0 { Sci::new(BigInt::one(), 0, base) } else { xs.clone() });
+    match catch(|| cx.powi(&rx, dashu_int::IBig::from(c.n))) {
+        Err(m) => out.fail(format!("Context::powi({}, {}) base {base} p={p} panicked: {}", xs.show(), c.n, normalise(&m))),
+        Ok(r) => match res_of(&r) {
+            Err(e) => out.fail(format!("Context::powi: {e}")),
+            Ok(res) => {
+                let broken = contract(&truth, &res, p, R::MODE);
+                if !broken.is_empty() {
+                    report(&mut out, &format!("Context::powi(x of {} digits, {})", c.x.digits(base), c.n), &truth, &res, p, R::MODE, &broken);
+                }
+            }
+        },
+    }
+    out
+}
+
 macro_rules! subs {
     ($ck:ident, $maxp:expr, $($b:literal $bn:literal),*) => {$(
         subs!(@m $ck, $maxp, $b, $bn, Zero, Away, Up, Down, HalfEven, HalfAway);
@@ -707,7 +754,7 @@ fn main() {
     oracle_selfcheck();
     let mut ck = Check::new(
         "C11",
-        "exp, exp_m1, ln, ln_1p, powi, powf (Context methods; the FBig methods must agree with them) in bases {2,3,10,16,36} × 6 modes, precisions 1..60 (thorough: to 400) plus precisions on both sides of every power of two up to 2^12 bits (63 … 3000 bits, in bases 2, 3, 10, 16), arguments with <= p digits placed by magnitude class (B^-1000 … B^5 for exp, B^±1000 for ln, next to 0, next to 1 (1 ± k ulp), next to -1 for ln_1p, bases 1 ± k ulp with integer exponents to ±2^17 for powi, exact points); oracle: rigorous midpoint-radius ball arithmetic enclosure of the true value with outward rounding and a 4-rung Ziv precision ladder — violation only if the whole enclosure is >= 1 ulp from the result, pass only if the whole enclosure is < 1 ulp away, otherwise inconclusive; exact rational truth (trivial points, small powi, perfect-power powf) compared exactly; Exact flag on an irrational result is a violation. Non-trivial: true value irrational or judged by enclosure; distinct by case digest.",
+        "exp, exp_m1, ln, ln_1p, powi, powf (Context methods; the FBig methods must agree with them) in bases {2,3,10,16,36} × 6 modes, precisions 1..60 (thorough: to 400) plus precisions on both sides of every power of two up to 2^12 bits (63 … 3000 bits, in bases 2, 3, 10, 16), arguments with <= p digits placed by magnitude class (B^-1000 … B^5 for exp, B^±1000 for ln, next to 0, next to 1 (1 ± k ulp), next to -1 for ln_1p, bases 1 ± k ulp with integer exponents to ±2^17 for powi, exact points; powi with exponent 0 / 1 also on arguments with more digits than the precision); oracle: rigorous midpoint-radius ball arithmetic enclosure of the true value with outward rounding and a 4-rung Ziv precision ladder — violation only if the whole enclosure is >= 1 ulp from the result, pass only if the whole enclosure is < 1 ulp away, otherwise inconclusive; exact rational truth (trivial points, small powi, perfect-power powf) compared exactly; Exact flag on an irrational result is a violation. Non-trivial: true value irrational or judged by enclosure; distinct by case digest.",
     );
     let maxp: u32 = if ck.thorough() { 400 } else { 60 };
     subs!(ck, maxp, 2 "2", 3 "3", 10 "10", 16 "16", 36 "36");
@@ -717,6 +764,9 @@ fn main() {
     ck.sub("highp_b3_Up", (100, 2_000), || case_strategy_with(3, high_precision(3)), run::<mode::Up, 3>);
     ck.sub("highp_b10_HalfAway", (100, 2_000), || case_strategy_with(10, high_precision(10)), run::<mode::HalfAway, 10>);
     ck.sub("highp_b16_Down", (100, 2_000), || case_strategy_with(16, high_precision(16)), run::<mode::Down, 16>);
+    ck.sub("long_powi_b10_HalfAway", (2_000, 50_000), || long_case(10), long_powi::<mode::HalfAway, 10>);
+    ck.sub("long_powi_b2_Zero", (2_000, 50_000), || long_case(2), long_powi::<mode::Zero, 2>);
+    ck.sub("long_powi_b3_Up", (1_000, 25_000), || long_case(3), long_powi::<mode::Up, 3>);
     ck.sub("unlimited_b10_HalfEven", (600, 6_000), || case_strategy(10, 20), unlimited::<mode::HalfEven, 10>);
     ck.sub("unlimited_b2_Zero", (600, 6_000), || case_strategy(2, 20), unlimited::<mode::Zero, 2>);
     ck.assume("the ball arithmetic kernel in dv/src/ball.rs (outward rounding, Taylor tail bounds, |ln(1+t)-t| <= t^2); irrationality of exp/ln at non-trivial rational points (Lindemann–Weierstrass) and of non-perfect-power roots");
